@@ -114,9 +114,8 @@ def tool_matrix(full):
     for cfg, std in CXX_STD.items():
         m[cfg] = [("g++-" + std, ["g++", "-x", "c++", "-std=" + std] + cxxflags), ("clang++-" + std, ["clang++", "-x", "c++", "-std=" + std] + cxxflags)]
     if not full:
-        # quick: both compilers for the oldest standard, one each (alternating) for the others
+        # quick: g++ for every standard, clang++ in addition for the oldest standard and for the pmr flavour
         m["cpp17"] = m["cpp17"][:1]
-        m["cpp17pmr"] = m["cpp17pmr"][1:]
         m["cpp20"] = m["cpp20"][:1]
     m["py"] = [("python-import", None)]
     return m
@@ -569,7 +568,16 @@ def py_refs(out, rel, produced):
             res.add(mod.replace(".", "/") + ".py")
 
     pkg = rel.split("/")[:-1]
-    for node in ast.walk(tree):
+
+    def at_import_time(node):
+        """statements executed when the module is imported (function bodies run later: their imports are not needed to import)"""
+        for ch in ast.iter_child_nodes(node):
+            if isinstance(ch, (ast.FunctionDef, ast.AsyncFunctionDef, ast.Lambda)):
+                continue
+            yield ch
+            yield from at_import_time(ch)
+
+    for node in at_import_time(tree):
         if isinstance(node, ast.Import):
             for a in node.names:
                 add(a.name)
@@ -638,13 +646,20 @@ def own_macros(text):
     return [m.group(1) for m in _DEF.finditer(text)]
 
 
-def first_diag(text, strip):
+def diagnostics(text, strip, limit=6):
+    """(first diagnostic line, further warning-class diagnostics of other structural classes)"""
     text = text.replace(strip, "")
-    lines = [ln for ln in text.splitlines() if ln.strip()]
-    for ln in lines:
-        if re.search(r"\b(error|warning)\b", ln):
-            return ln.strip()[:300]
-    return lines[0].strip()[:300] if lines else ""
+    lines = [ln.strip()[:300] for ln in text.splitlines() if ln.strip()]
+    dl = [ln for ln in lines if re.search(r"\b(error|warning)\b", ln)]
+    if not dl:
+        return (lines[0] if lines else ""), []
+    more, seen = [], {diag_class(dl[0])}
+    for ln in dl[1:]:
+        c = diag_class(ln)
+        if c not in seen and len(more) < limit and "[-W" in ln:  # warnings are independent of each other; hard errors cascade
+            seen.add(c)
+            more.append(ln)
+    return dl[0], more
 
 
 def frontend_accepts(ddir, sset):
@@ -720,7 +735,7 @@ def _process_set(job):
         ev.append({"ev": "begin", "set": sset["id"], "lang": cfg, "omit": omode, "groups": groups})
         all_ok = True
         for ri, r in enumerate(roots):
-            omit = {"ser": False, "omit": True, "mixed": ri % 2 == 1, "mixed2": ri % 2 == 0}[omode]
+            omit = omode == "omit"
             rc, err = 0, ""
             try:
                 nunavut.generate_types(lang, str(ddir / r), str(out), omit_serialization_support=omit, language_options=dict(opts),
@@ -781,8 +796,9 @@ def _process_set(job):
                             tu.write_text('#include "%s"\n' % rel)
                         p = subprocess.run(argv + ["-fsyntax-only", "-I", str(out), str(tu)], stdout=subprocess.PIPE, stderr=subprocess.STDOUT,
                                            text=True, errors="replace", timeout=600)
+                        d0, more = diagnostics(p.stdout, strip)
                         ev.append({"ev": "compile", "file": cps(rel), "tool": tid, "std": tid.split("-", 1)[1], "rc": p.returncode,
-                                   "diag": cps(first_diag(p.stdout, strip))})
+                                   "diag": cps(d0), "more": [cps(x) for x in more]})
         res["units"].append({"cfg": cfg, "omit": omode, "events": ev})
     if not job.get("keep"):
         shutil.rmtree(sdir, ignore_errors=True)
@@ -886,6 +902,7 @@ class Campaign:
                 self.excluded.add((sid, cfg, omode))
                 ctx.cov["traces_validated_against_impl"] += 1
         seen_file = set()
+        found = []  # (clause, target, omode, class, what, case)
         for rid, clause in sorted(rej.items()):
             sid, cfg, omode, e = self.info[rid]
             sset = self.sets[sid]
@@ -895,30 +912,41 @@ class Campaign:
                 raise MachineryFailure("harness produced an inconsistent record (%s): %r" % (clause, {k: v for k, v in e.items() if k != "produced"}))
             case = {"set": {k: sset[k] for k in ("id", "roots", "files")}, "meta": {k: v for k, v in sset["meta"].items() if k != "world"},
                     "cfg": cfg, "omit": omode, "clause": clause}
+            lang = CFGS[cfg][0]
             if clause == "gen.rc":
                 err = to_s(e["err"])
-                sig = "C06|gen.rc|%s|%s|%s" % (CFGS[cfg][0], "omit" if e["omitted"] else "ser", diag_class(err))
-                what = "generation of root namespace '%s' for %s raised %s" % (e["root"], cfg, err)
-                case["root"] = e["root"]
+                found.append((clause, lang, omode, diag_class(err), "generation of root namespace '%s' for %s (%s) raised %s" % (e["root"], cfg, omode, err),
+                              dict(case, root=e["root"])))
             elif clause == "inc.closure":
                 f = to_s(e["file"])
                 obs, prod = self.observed[(sid, cfg, omode)]
                 missing = sorted(i for i in obs.get(f, ()) if i not in prod)
                 kind = "support" if any("support" in m for m in missing) else "type"
-                sig = "C06|inc.closure|%s|%s|refers to a %s file that is not produced" % (CFGS[cfg][0], omode if omode != "ser" else "ser", kind)
-                what = "%s (%s, %s) refers to %s; generating all involved namespaces produced only %s" % (f, cfg, omode, missing, sorted(prod)[:12])
-                case["file"] = f
+                found.append((clause, lang, omode, "refers to a %s file that is not produced" % kind,
+                              "%s (%s, %s) refers to %s; generating all involved namespaces produced only %s" % (f, cfg, omode, missing, sorted(prod)[:12]),
+                              dict(case, file=f)))
             else:
                 f = to_s(e["file"])
-                if (sid, cfg, omode, f, clause) in seen_file:
-                    continue  # same file rejected by another tool: one verdict per file and clause, first tool in matrix order
-                seen_file.add((sid, cfg, omode, f, clause))
-                diag = to_s(e["diag"])
-                sig = "C06|%s|%s|%s|%s" % (clause, target_of(cfg, e["tool"]), "omit" if omode == "omit" else ("ser" if omode == "ser" else omode),
-                                           diag_class(diag) or "rc=%d" % e["rc"])
-                what = "%s generated for %s (%s) handed alone to %s: rc=%d, first diagnostic: %s" % (f, cfg, omode, e["tool"], e["rc"], diag or "(none)")
-                case.update(file=f, tool=e["tool"])
-            ctx.violation(sig, what, case)
+                if (sid, cfg, omode, f) in seen_file:
+                    continue  # same file rejected by another tool: one verdict per file, first tool in matrix order
+                seen_file.add((sid, cfg, omode, f))
+                diags = [to_s(e["diag"])] + [to_s(d) for d in e.get("more", [])]
+                classes = set()
+                for diag in diags:
+                    dc = diag_class(diag) or "rc=%d" % e["rc"]
+                    if dc in classes:
+                        continue
+                    classes.add(dc)
+                    found.append((clause, target_of(cfg, e["tool"]), omode, dc,
+                                  "%s generated for %s (%s) handed alone to %s: rc=%d, diagnostic: %s" % (f, cfg, omode, e["tool"], e["rc"], diag or "(none)"),
+                                  dict(case, file=f, tool=e["tool"])))
+        # a failure that shows with support enabled AND omitted is one finding ("any"), otherwise the mode is part of the signature
+        modes = {}
+        for clause, target, omode, dc, what, case in found:
+            modes.setdefault((clause, target, dc), set()).add(omode)
+        for clause, target, omode, dc, what, case in found:
+            m = "any" if len(modes[(clause, target, dc)]) > 1 else omode
+            ctx.violation("C06|%s|%s|%s|%s" % (clause, target, m, dc), what, case)
         return rej
 
 
@@ -1126,9 +1154,8 @@ def run(ctx):
     wjobs, wsets = [], []
     for n, (i, w) in enumerate(chosen):
         sset = world_set(w, i)
-        two = len(w["roots"]) > 1
         cfgs = ALL_CFGS if n % ctx.pick(13, 5) == 0 else ["c", "cpp17", "py"]
-        modes = omodes + (["mixed", "mixed2"] if two and n % 3 == 0 else [])
+        modes = omodes
         do_compile = n % ctx.pick(6, 2) == 0
         wsets.append((sset, cfgs, modes))
         wjobs.append(mkjob(ctx, sset, [(c, m) for c in cfgs for m in modes], tools, compile_=do_compile))
